@@ -13,6 +13,12 @@ decoder/encoder pair in TLA+):
                   per record with true family (headids.c table), segment, start, byte length, last address
                   start + len/gran - 1, and every printed total equals the sum of its segment, every non-empty segment
                   has a total.
+(F) spec/FilterList.tla: pbind's -f is the result of a SEQUENCE of -f (add) / +f (cancel) operations, those preset through
+    BINDCMD first (toolutils.c CMD_FilterList/FilterOK, cmdarg.c ProcessCMD): FilterBytes array with append-unless-found /
+    swap-remove vs. "last operation naming the id is an add"; FilterList_MC checks all sequences of <= 5 (6) operations
+    over 4 ids; PBind_CoverFilt.cfg replays FilterList!FPatterns (cancel first / middle / last / absent / repeated / all,
+    re-add, duplicates, BINDCMD presets with and without command-line operations) and BigPatterns (100 entries); real
+    files get -f lists of their families plus foreign ids with the first / middle / last entry cancelled.
 (M) PBind_MC / PList_MC: the programs as step machines (one record per step) over every case of bounded spaces
     (cfg files PBind_MC*.cfg, PList_MC*.cfg): Conforms, StepRunAgrees, PrefixOK, RoundTrip (Decode/Encode), HeaderRule,
     Monotone / SumsSound, OneLinePerItem.  PList_MC_dev.cfg / PBind_MC_dev.cfg: with the deviation switched on TLC
@@ -62,11 +68,11 @@ def pbind_job(c, r):
         files["f%d.p" % i] = bytes(b)
         names.append("f%d.p" % i)          # pbind does not add the extension to source names
     target = r.choice(["out.p", "out"])
-    opts = ["-q"] if c["quiet"] else []
-    if c["filt"]:
-        opts += ["-f", ",".join(utilrun.num(x, r.randrange(4)) for x in c["filt"])]
-    argv = (opts + names + [target]) if r.random() < 0.5 else (names + [target] + opts)
-    return {"argv": argv, "files": files, "want": ["out.p"]}
+    fcmd, env = utilrun.filter_ops(c["fops"], r, "BINDCMD")
+    opts = utilrun.weave([["-q"]] if c["quiet"] else [], fcmd, r)
+    flat = [x for op in opts for x in op]
+    argv = (flat + names + [target]) if r.random() < 0.5 else (names + [target] + flat)
+    return {"argv": argv, "files": files, "want": ["out.p"], "env": env}
 
 
 def pbind_obs(res):
@@ -198,16 +204,18 @@ def judge(rep, tier, module, pending, tool, describe, bld, observe):
             continue
         files = dict(job["files"])
         files["argv.json"] = json.dumps(job["argv"])
+        files["env.json"] = json.dumps(job.get("env") or {})
         files["observed.json"] = json.dumps(obs)
         files["verdict.json"] = json.dumps(v)
-        what = "%s %s (%s): observed %s; %s" % (tool, " ".join(job["argv"]), tag, describe(obs),
+        what = "%s%s %s (%s): observed %s; %s" % ("".join("%s='%s' " % kv for kv in (job.get("env") or {}).items()),
+                                                   tool, " ".join(job["argv"]), tag, describe(obs),
                                                  v.get("why") or "specification expects %s" % describe(v.get("model", {})))
         if fit == ["none"] or not fit:
-            rep.violation(what, case={"filt": c.get("filt")}, files=files,
+            rep.violation(what, case={"fops": c.get("fops")}, files=files,
                           key={"tool": tool, "explained_by": "none" if fit else "model"})
         else:
             for d in fit:
-                rep.violation(what + " [explained by deviation %s]" % d, case={"filt": c.get("filt")}, files=files,
+                rep.violation(what + " [explained by deviation %s]" % d, case={"fops": c.get("fops")}, files=files,
                               key={"tool": tool, "explained_by": d})
     if ndrift > 6:
         rep.drift("... and %d more %s observations not reproduced by the operational model" % (ndrift - 6, tool))
@@ -264,6 +272,12 @@ def main(tier):
         if mc.violation:
             raise CheckError("%s violates its own property in %s: %s" % (mod, cfg, mc.violation[:800]))
         rep.model("%s(%s)" % (mod, cfg), mc)
+    if not nomc:
+        fl = tlc.must(tlc.run("FilterList_MC", "FilterList_MC5.cfg" if tier == "quick" else "FilterList_MC.cfg", timeout=900,
+                              mem="4g", collect=False), "FilterList_MC")
+        if fl.violation:
+            raise CheckError("FilterList violates its invariants: %s" % fl.violation[:600])
+        rep.model("FilterList_MC", fl)
     for mod, cfg, d in ([] if nomc else [("PList_MC", "PList_MC_dev.cfg", "total_format"),
                                          ("PBind_MC", "PBind_MC_dev.cfg", "quiet_stale_errno")]):
         mc = tlc.must(tlc.run(mod, cfg, timeout=600, mem="4g", collect=False, workers=2), cfg)
@@ -272,7 +286,7 @@ def main(tier):
         rep.model("%s(Dev={%s}: defect found by TLC)" % (mod, d), mc)
 
     # (G)+(V) pbind -----------------------------------------------------------------------------------
-    cases, nsim = generate(rep, "PBind_MC", ["PBind_Cover.cfg", "PBind_Cover1.cfg", "PBind_CoverBig.cfg"], "PBind_Sim.cfg",
+    cases, nsim = generate(rep, "PBind_MC", ["PBind_Cover.cfg", "PBind_Cover1.cfg", "PBind_CoverBig.cfg", "PBind_CoverFilt.cfg"], "PBind_Sim.cfg",
                            150 if tier == "quick" else 2500, 12)
     jobs = [pbind_job(x["c"], rng("c07/b/%d" % i)) for i, x in enumerate(cases)]
     with Phase("replay %d cases into pbind" % len(jobs)):
@@ -309,21 +323,30 @@ def main(tier):
         if sum(len(p) for (_, p) in pick) > budget:
             continue
         cpus = sorted({c for (_, p) in pick for c in cpus_of(p)})
-        mode = r.randrange(4)
-        filt = []
+        mode = r.randrange(6)
+        fops = []
+
+        def op(neg, lst, env=False):
+            return {"neg": neg, "list": lst, "env": env}
         if cpus and mode == 1:
-            filt = [r.choice(cpus)]
+            fops = [op(False, [r.choice(cpus)])]
         elif cpus and mode == 2:
-            filt = sorted(set(r.sample(cpus, min(len(cpus), 2)) + [r.choice(cpus) ^ 0x5a]))
+            fops = [op(False, sorted(set(r.sample(cpus, min(len(cpus), 2)) + [r.choice(cpus) ^ 0x5a])))]
         elif mode == 3:
-            filt = [0x81]
-        c = {"files": [list(p) for (_, p) in pick], "filt": filt, "quiet": r.random() < 0.3}
+            fops = [op(False, [0x81])]
+        elif cpus and mode >= 4:
+            # list of the families present plus two foreign ones, then cancel the first / a middle / the last entry
+            lst = [0xEE] + list(cpus) + [0xED]
+            r.shuffle(lst)
+            victim = r.choice([lst[0], lst[len(lst) // 2], lst[-1]])
+            fops = [op(False, lst, env=(mode == 5)), op(True, [victim])]
+        c = {"files": [list(p) for (_, p) in pick], "fops": fops, "quiet": r.random() < 0.3}
         cj.append(("golden tests %s" % "+".join(nm for (nm, _) in pick), c, pbind_job(c, r)))
     with Phase("run pbind on %d corpus cases" % len(cj)):
         cres = utilrun.run_many(bld, "pbind", [j for (_, _, j) in cj])
     for (tag, c, job), res in zip(cj, cres):
         rep.evaluated()
-        rep.distinct("pbind/" + tag + "/" + json.dumps(c["filt"]))
+        rep.distinct("pbind/" + tag + "/" + json.dumps(c["fops"]))
         pending.append((tag, c, job, pbind_obs(res)))
     rep.traces(len(cj))
     judge(rep, tier, "PBind_Trace", pending, "pbind", _d_pbind, bld, pbind_obs)
@@ -368,9 +391,12 @@ def replay(path):
     v = json.load(open(os.path.join(path, "violation.json")))
     bld = build.get("hook")
     argv = json.load(open(os.path.join(path, "argv.json")))
+    envp = os.path.join(path, "env.json")
+    env = json.load(open(envp)) if os.path.exists(envp) else {}
+    log("environment: %s" % env)
     files = {n: open(os.path.join(path, n), "rb").read() for n in os.listdir(path) if n.endswith(".p")}
     tool = v["key"]["tool"]
-    res = utilrun.run_one(bld, tool, {"argv": argv, "files": files, "want": ["out.p"]})
+    res = utilrun.run_one(bld, tool, {"argv": argv, "files": files, "want": ["out.p"], "env": env})
     log("%s %s -> rc=%s" % (tool, " ".join(argv), res["rc"]))
     log(res["out"][-1500:] if tool == "plist" else _d_pbind(pbind_obs(res)))
     log("recorded: %s" % v["what"][:600])
